@@ -685,14 +685,21 @@ class Slice:
         # fields follows only the operand of field f
         if len(p) > 1 and isinstance(p[1], dict) and "f" in p[1] and p[0] not in self.locals:
             defs = self.body.defs.get(p[0], [])
-            aggs = [d for d in defs if d[2] == "assign" and len(d[3]["p"]) == 1 and d[3]["r"]["k"] == "Agg" and d[3]["r"].get("ak") == "adt"]
+            aggs = [d for d in defs if d[2] == "assign" and len(d[3]["p"]) == 1 and d[3]["r"]["k"] == "Agg" and d[3]["r"].get("ak") in ("adt", "tuple")]
             if defs and len(aggs) == len([d for d in defs if d[2] != "assign" or len(d[3]["p"]) == 1]) and aggs and not (1 <= p[0] <= self.body.argc):
                 fname = p[1].get("n")
                 ok = True
                 ops = []
                 for d in aggs:
                     r = d[3]["r"]
-                    if fname in r.get("fields", []):
+                    if r.get("ak") == "tuple":
+                        # `(a, b).1`: follow only the operand at that position
+                        idx = p[1].get("f")
+                        if isinstance(idx, int) and idx < len(r["o"]):
+                            ops.append(r["o"][idx])
+                        else:
+                            ok = False
+                    elif fname in r.get("fields", []):
                         idx = r["fields"].index(fname)
                         if idx < len(r["o"]):
                             ops.append(r["o"][idx])
